@@ -183,8 +183,8 @@ inductive OaEv where
   | usage (u : Usage)
   /-- `data: [DONE]` -/
   | done
-  /-- `chat.completion` -/
-  | chat (content : Bytes) (calls : List Call) (finish : Option Bytes) (u : Usage)
+  /-- `chat.completion`; `named` = role `assistant` (false: the zero value's empty role) -/
+  | chat (named : Bool) (content : Bytes) (calls : List Call) (finish : Option Bytes) (u : Usage)
   /-- `text_completion` chunk (stream) -/
   | tchunk (text : Bytes) (finish : Option Bytes) (u : Option Usage)
   /-- `text_completion` (non-stream) -/
@@ -220,7 +220,7 @@ def oaChatStream (usage : Bool) : List (Item ChatMsg) → Bool → List OaEv
 def oaChatOnce : Except Bytes ChatMsg → OaEv
   | .ok m =>
     let reason := if !m.calls.isEmpty then sToolCalls else m.info.reason
-    .chat m.content m.calls (nonEmpty? reason) (usageOf m.info)
+    .chat m.info.named m.content m.calls (nonEmpty? reason) (usageOf m.info)
   | .error e => .error e
 
 /-- `CompleteWriter.writeResponse` in stream mode -/
